@@ -112,9 +112,19 @@ func init() {
 				cls = strings.ToLower(strings.ReplaceAll(m, " ", "-"))
 			}
 			line := ""
-			for _, l := range strings.Split(out, "\n") {
+			lines := strings.Split(out, "\n")
+			for i, l := range lines {
 				if typeErrRe.MatchString(l) {
 					line = l
+					// mrp prints the reason on the following line: keep its
+					// innermost cause, identifiers blanked
+					if strings.Contains(l, "Error resolving") && i+1 < len(lines) {
+						detail := strings.TrimSpace(lines[i+1])
+						if k := strings.LastIndex(detail, ": "); k >= 0 {
+							cause := c07Ident.ReplaceAllString(detail[k+2:], "#")
+							line = l + " / " + cause
+						}
+					}
 					break
 				}
 			}
@@ -152,6 +162,8 @@ func init() {
 }
 
 var idNumRe = regexp.MustCompile(`[A-Z]+[0-9]+|[a-z_]+[0-9]+`)
+
+var c07Ident = regexp.MustCompile(`\b[A-Z][A-Z0-9_]*[0-9][A-Z0-9_]*\b|\b(GEN|USE|USE2|NOP|CHK|INNER|TOP|LEAF|MID|FLAG|DATA|WORK|SUB|AFTER|M[0-9]|G[0-9]|U[AB])\b`)
 
 func stripIds(s string) string {
 	s = regexp.MustCompile(`ID\.[A-Za-z0-9_.]+`).ReplaceAllString(s, "ID")
@@ -475,8 +487,13 @@ func init() {
 				cfg.PMapCall = 45
 				cfg.AllowDynamicDisabledInMap = true
 				seed := c.Seed*1000003 + 2100000 + int64(i)
-				cases = append(cases, &flowCase{Index: i, Seed: seed, Cfg: cfg, Vdr: "disable", ExtraArg: []string{"--strict=error"},
-					Template: tmplFor(i)})
+				fc := &flowCase{Index: i, Seed: seed, Cfg: cfg, Vdr: "disable", ExtraArg: []string{"--strict=error"},
+					Template: tmplFor(i), SlowOne: map[bool]int{true: 400}[tmplFor(i) > 0]}
+				if (i/(3*pgen.NTemplates))%2 == 1 {
+					// every second round of templates: all run-time collections empty
+					fc.Tweak = func(s *pgen.Spec) { s.LenChoices = []int{0} }
+				}
+				cases = append(cases, fc)
 			}
 			return cases
 		},
